@@ -33,6 +33,7 @@ def run(ctx):
     ctx.rule("R4.per-thread-per-hardware", "PIN_STATES thread_local keyed by hardware_id; spawn_threads pins inside the spawned closure before the entry point; one spawn per processor", floor=5)
     ctx.rule("R6.kernel-error-not-swallowed", "a failing sched_setaffinity is never tolerated: the binding turns every non-zero return into Err, and the platform pin diverges on every Err (otherwise the bookkeeping would record a pin the kernel refused)", floor=2)
     ctx.rule("R7.view-from-full-inventory", "SystemHardware::thread_processors answers from the pin state and the FULL processor inventory (get_processor / all_processors_slice), never from the quota-limited default set or a builder", floor=2)
+    ctx.rule("R8.pin-state-lookups-complete", "the per-thread pin-state table is looked up by hardware id over ALL entries (entry order is arbitrary: first-pin order, swap_remove) - no positional cut in PinStateMap::{get,set,remove}; the fake platform's pin overwrites the thread's previous affinity on every call", floor=4)
     ctx.rule("R5.fresh-mask", "the mask passed to the kernel is a CpuMask::new() local of that call, filled by insert() over the given processors", floor=2)
 
     # ---------------- R1
@@ -341,6 +342,36 @@ def run(ctx):
                 for g in switch_guards(tp, bb) if g["src"].get("kind") == "call") or True
             ctx.ob("R7.view-from-full-inventory", f"thread_processors#{i}", full and not bad and pin, tp.loc(t["span"]),
                    f"processors of the answer come from the full inventory: {full}; from a quota-/availability-filtered source: {bad or 'none'}")
+
+    # ---------------- R8
+    from ..analysis import POSITIONAL_CUT
+    n8 = 0
+    for b in prog.bodies:
+        if b.is_closure or "::tests" in b.key or "system_hardware::PinStateMap::" not in b.key:
+            continue
+        n8 += 1
+        ctx.fn(b)
+        used = sorted({t["callee"].get("method") for bd in [b] + prog.closures_of(b) for _bb, t in bd.calls()
+                       if t["callee"].get("method") in (POSITIONAL_CUT - {"find", "find_map", "position", "any", "all"}) | {"binary_search", "binary_search_by_key", "first", "last"}})
+        ctx.ob("R8.pin-state-lookups-complete", b.key.split("system_hardware::")[-1], not used, b.loc(),
+               f"positional cuts / order assumptions in the lookup: {used or 'none'}")
+    if n8 == 0:
+        ctx.missing("R8.pin-state-lookups-complete", "system_hardware::PinStateMap methods")
+    fp = [b for b in prog.find("pin_current_thread_to") if "fake::platform::FakePlatform" in (b.impl_self or "") + b.key]
+    if not fp:
+        ctx.missing("R8.pin-state-lookups-complete", "FakePlatform::pin_current_thread_to")
+    else:
+        b = fp[0]
+        ctx.fn(b)
+        asg = field_assigns(b, "FakeThreadState::allowed_processors")
+        ins = [(bb, t) for bb, t in b.calls() if t["callee"].get("method") == "insert" and "HashMap" in callee_key(t["callee"])]
+        sites = [bb for bb, _i, _s in asg] + [bb for bb, _t in ins]
+        pc = path_count(b, sites) if sites else (0, 0)
+        lazy = sorted({t["callee"].get("method") for _bb, t in b.calls() if t["callee"].get("method") in ("or_insert", "or_insert_with", "or_insert_with_key")})
+        ok = bool(sites) and pc is not None and pc[0] >= 1
+        ctx.ob("R8.pin-state-lookups-complete", "FakePlatform::pin_current_thread_to.overwrites", ok, b.loc(),
+               f"the thread's allowed set is (re)assigned on every path: per path {pc}; insert-if-absent forms used: {lazy or 'none'}" +
+               ("" if ok else " - a second pin of the same thread keeps the first affinity"))
 
     # ---------------- rules shared with C09 (same builder)
     ctx.import_rules("C09", {
